@@ -170,6 +170,8 @@ func (t c11Table) gallina() string {
 	return "[" + strings.Join(parts, "; ") + "]"
 }
 
+var c11Timeouts int
+
 func c11Resolve(tbl c11Table, in rtoks, di int, nontrivial bool) Case {
 	d := c11Delims[di]
 	m := map[string]string{}
@@ -195,10 +197,15 @@ func c11Resolve(tbl c11Table, in rtoks, di int, nontrivial bool) Case {
 	}()
 	var o outcome
 	var fail []string
+	limit := 30 * time.Second // generous: a healthy resolve takes microseconds, the machine may be busy
+	if c11Timeouts >= 2 {
+		limit = 2 * time.Second // already established that it diverges: do not wait long again
+	}
 	select {
 	case o = <-ch:
-	case <-time.After(3 * time.Second):
-		return Case{Kind: "resolve", Desc: map[string]any{"table": tdesc, "input": input, "delims": d}, Fail: []string{"Resolve did not terminate within 3s"}, Nontrivial: true,
+	case <-time.After(limit):
+		c11Timeouts++
+		return Case{Kind: "resolve", Desc: map[string]any{"table": tdesc, "input": input, "delims": d}, Fail: []string{"Resolve did not terminate within its time limit (30 s)"}, Nontrivial: true,
 			Coq: "CResolve " + tbl.gallina() + " " + gToks(in) + " None"}
 	}
 	obs := "None"
@@ -325,7 +332,7 @@ func init() {
 	}
 	register(&Prop{
 		ID:   "C11",
-		Rule: "token strings over {prefix, suffix, separator, text chars}: exhaustive in length-lex order (all strings up to length 4 quick / 5 thorough over {PRE,SUF,SEP,a,b}) for two fixed tables (one acyclic with a nested reference, one with a two-key cycle and a key containing the separator), then random templates from the grammar (nesting <= 4, repetition, unknown keys, defaults containing placeholders, unterminated tails, stray suffixes/separators) with random tables over <= 4 keys whose values are templates, single characters or empty; every case under one of 5 non-overlapping delimiter triples (incl. multi-byte, multi-character). Observable: result string (re-tokenised) or 'circular reference' panic; Go-side: independent recursive-descent reference, 3 s divergence timeout. Non-trivial: template nests or repeats a placeholder. Distinct by (triple, table, input).",
+		Rule: "token strings over {prefix, suffix, separator, text chars}: exhaustive in length-lex order (all strings up to length 4 quick / 5 thorough over {PRE,SUF,SEP,a,b}) for two fixed tables (one acyclic with a nested reference, one with a two-key cycle and a key containing the separator), then random templates from the grammar (nesting <= 4, repetition, unknown keys, defaults containing placeholders, unterminated tails, stray suffixes/separators) with random tables over <= 4 keys whose values are templates, single characters or empty; every case under one of 5 non-overlapping delimiter triples (incl. multi-byte, multi-character). Observable: result string (re-tokenised) or 'circular reference' panic; Go-side: independent recursive-descent reference, 30 s divergence timeout. Non-trivial: template nests or repeats a placeholder. Distinct by (triple, table, input).",
 		Corpus: func() []Case {
 			t := c11Table{keys: []rtoks{a}, vals: []rtoks{{5}}}
 			return []Case{
